@@ -41,6 +41,12 @@ EXTRA = [
     ("defer-lit", "@@\n@@\n-defer foo()\n+defer x\n", "package p\n\nfunc f() { defer foo() }\n"),
     ("callfun-in-go", "@@\nvar x expression\n@@\n-foo(x)\n+x\n", "package p\n\nfunc f() { go foo(1); defer foo(2) }\n"),
     ("incdec", "@@\nvar x expression\n@@\n-foo(x)\n+x\n", "package p\n\nfunc f() { foo(1)++ }\n"),
+    # a change with two sites, the later of which (replaced first) splices code that does not parse where it stands while the
+    # earlier one makes the replacement fail: nothing of the half-rewritten tree may be emitted
+    ("partial-fail", "@@\nvar x, y expression\n@@\n-pick(y, x)\n+y.x\n",
+     "package p\n\nfunc f() {\n\t_ = pick(T{}, g())\n\tif pick(T{}, ok) {\n\t}\n}\n"),
+    ("partial-fail-2", "@@\nvar x, y expression\n@@\n-pick(y, x)\n+y.x\n",
+     "package p\n\nfunc f() {\n\tif pick(T{}, ok) {\n\t}\n\t_ = pick(T{}, g())\n}\n"),
     ("assign-call-lhs", "@@\n@@\n-foo\n+g()\n", "package p\n\nfunc f() { var foo int; foo, b := 1, 2; _ = b }\n"),
 ]
 
@@ -93,7 +99,7 @@ def main():
     for r, (name, mode, si) in zip(results, meta):
         sc, ob = r["sc"], r["obs"]
         em = None
-        if r.get("load_err") or ob["rc"] != 0:
+        if r.get("load_err"):
             pass
         elif mode == "write":
             if ob["after"]["a.go"][1] != sc.files["a.go"]:
@@ -102,7 +108,7 @@ def main():
             out = ob["stdout"]
             if sc.flags["verbose"]:
                 out = b"".join(l for l in out.splitlines(keepends=True) if not (l.startswith(ob["cwd"].encode()) or l.startswith(b"generated file")))
-            if out != sc.files["a.go"]:
+            if out != sc.files["a.go"] and (out or ob["rc"] == 0):
                 em = out
         else:
             out = ob["stdout"]
@@ -133,8 +139,8 @@ def main():
         ff = r["facts"]["files"][0]
         em = r["emitted"]
         if em is not None and errs.get(em):
-            ck.violation("gopatch exited 0 and emitted content that does not parse (%s, %s%s): %s" %
-                         (name, mode, " --skip-import-processing" if si else "", errs[em][:150]),
+            ck.violation("gopatch (exit status %d) emitted content that does not parse (%s, %s%s): %s" %
+                         (ob["rc"], name, mode, " --skip-import-processing" if si else "", errs[em][:150]),
                          dict(rep, emitted=em.decode("utf-8", "replace")))
         bad_fmt = bool(ff["fmt_parse_err"]) or bool(ff["format_err"])
         if bad_fmt:
